@@ -506,6 +506,21 @@ def handle_refuted(contract, shape, values, st0, ob, oid, res, check, prop):
         check.add_obligation(Obligation(oid, contract.key, ob.kind, res["solver"], "known-finding", round(res["seconds"], 3),
                                         "every replayed counter-model lies inside a listed known finding"))
         return
+    # contracts over heap objects cannot be replayed from a model: a hand-written probe of the real code (concrete cases with the
+    # expected observation, from the contract's own clauses) stands in for the replay
+    probe = getattr(contract, "probe", None)
+    if probe is not None:
+        try:
+            failures = list(probe())
+        except Exception as e:      # noqa: BLE001
+            failures = [("probe", {}, f"probe raised {e!r}")]
+        for clause, inputs, detail in failures[:3]:
+            v = check.violation(oid, dict(function=contract.key, **inputs), f"{clause}: {detail}",
+                                replay={"kind": "probe", "contract": contract.key, "module": contract.__dict__.get("probe_module", "")}, found_input=True,
+                                verifier_output={"solver": res["solver"], "note": "failing case found by the contract's concrete probe seeded by the refutation"})
+            if v == "violation":
+                check.add_obligation(Obligation(oid, contract.key, ob.kind, res["solver"], "refuted", round(res["seconds"], 3), "failing input found by the concrete probe"))
+                return
     # refuted but no model reproduces: search the function's bounded enumerator if the contract has one
     enum = getattr(contract, "enumerate_small", None)
     if enum is not None:
